@@ -144,7 +144,8 @@ def gen_cases(ctx):
             if sw in ("unit", "both"):
                 o["unit"] = True
         if rng.random() < 0.3:
-            o["test"] = [rng.choice(["t1", "t[02468] ", "!t1", "t3 ", "t"])]
+            # (--test patterns see str(test), "t5 (tests.T5)" here - not test.id(), "tests.T5.runTest")
+            o["test"] = [rng.choice(["t1", "t[02468] ", "!t1", "t3 ", "t", "runTest", "!^t\\d", "^(pa|pb|tests)", "!runTest$"])]
         elif rng.random() < 0.4:
             # several patterns of one kind whose meaning depends on being compiled separately
             o["test"] = rng.choice([["(?i)T1 ", "T2 "], ["(?i)T0 ", "T3 ", "T4 "], ["!(?i)T1 ", "!T2 "], ["t(?P<a>1) ", "t(?P<a>2) "],
@@ -189,8 +190,11 @@ def shuffle_modes(ctx, n=None):
     n = n if n is not None else (6 if ctx.quick() else 100)
     jobs = []
     for i in range(n):
+        # (declarations nested in each other: a test class with its own layer inside a suite that declares another one -
+        # the nearest declaration wins in every process)
         w = worlds.gen_world(rng, n_layers=rng.choice([2, 3, 4]), tests_per_layer=(2, 5),
-                             kinds=["pass", "pass", "pass", "fail", "error", "skipBody"], p_fault=0.0, p_write=0.0)
+                             kinds=["pass", "pass", "pass", "fail", "error", "skipBody"], p_fault=0.0, p_write=0.0,
+                             nested=(i % 2 == 0))
         if i % 3 == 1:
             # at least two unit tests, and a layer whose dotted name sorts after the unit layer's (the shuffle draws
             # one stream over the layers in name order)
@@ -262,7 +266,7 @@ def shuffle_modes(ctx, n=None):
             loud = [t for t in w["tests"] if not t.get("doctest")]
             if loud:
                 rng.choice(loud)["body"]["fd2"] = ("library warning: something is deprecated " + "x" * 60 + "\n") * 3000
-        seed = rng.randint(0, 10 ** 6)
+        seed = rng.randint(0, 10 ** 6) if i % 3 != 2 else None      # (every third world runs unshuffled)
         wo = {}
         if i % 4 == 2:
             # started through a wrapper script (options from sys.argv); tests that empty sys.argv in place run in the
@@ -366,7 +370,7 @@ def shuffle_modes(ctx, n=None):
                 if not bad and p1["total"] and p2["total"] and p1["total"][1:3] != p2["total"][1:3]:
                     bad = "Total: %r failures/errors sequentially, %r with -j %d" % (p1["total"][1:3], p2["total"][1:3], j)
         if bad:
-            ctx.violation("seed %d: %s" % (seed, bad), case, signature="modes-disagree")
+            ctx.violation("seed %r: %s" % (seed, bad), case, signature="modes-disagree")
 
 
 def alias_cases(ctx, n=None):
